@@ -227,7 +227,8 @@ pub fn plan(c: PlanCtx) -> BoxedStrategy<Plan> {
 }
 
 fn waker_idx() -> impl Strategy<Value = u8> {
-    prop_oneof![6 => Just(0u8), 2 => Just(1u8), 2 => Just(2u8)]
+    // 0..2 pooled waker objects, 3..5 a fresh waker object for the same task
+    prop_oneof![6 => Just(0u8), 2 => Just(1u8), 2 => Just(2u8), 2 => Just(3u8), 1 => Just(4u8)]
 }
 
 fn cap_small() -> impl Strategy<Value = usize> {
@@ -436,6 +437,8 @@ fn free_shape(subj: Subj, prof: &Prof, big: bool) -> BoxedStrategy<Case> {
             }
             if subj.is_collection() {
                 cfg.child_kind = kind;
+            } else if subj.is_merge() {
+                cfg.child_kind = kind % 2;
             }
             Case {
                 subj,
